@@ -1736,7 +1736,12 @@ impl<K: Hash + Eq, V, RH: BuildHasher, REH: BuildHasher, FH: BuildHasher, FEH: B
             };
         } else {
             match self.frequent.remove_lru_in() {
-                None => None,
+                // the frequent list is empty: make room from the recent list instead,
+                // otherwise a full cache would admit without evicting
+                None => self
+                    .recent
+                    .remove_lru_in()
+                    .map(|ent| self.recent_evict.put_nonnull(ent)),
                 Some(ent) => Some(self.frequent_evict.put_nonnull(ent)),
             };
         }
